@@ -454,7 +454,7 @@ fn ref_escape(p: &[u8]) -> Vec<u8> {
 }
 
 #[derive(Clone, Debug, PartialEq)]
-enum Src { None, Int(i64), Uint(u64), F32(u32), F64(u64), Quoted(Vec<u8>) }
+enum Src { None, Int(i64), Uint(u64), F32(u32), F64(u64), Quoted(Vec<u8>), Date(char, i16, u8, u8, u8) }
 
 /// a call reduced to what it denotes in the document
 #[derive(Clone, Debug, PartialEq)]
@@ -496,7 +496,7 @@ fn normalize(c: &Call) -> Norm {
         Call::F64(bits) => plain(f64_text(*bits), Src::F64(*bits)),
         Call::F32P(bits, p) => plain(f32p_text(*bits, *p), Src::None),
         Call::F64P(bits, p) => plain(f64p_text(*bits, *p), Src::None),
-        Call::Date(f, y, m, d, h) => plain(date_text(*f, *y, *m, *d, *h), Src::None),
+        Call::Date(f, y, m, d, h) => plain(date_text(*f, *y, *m, *d, *h), Src::Date(*f, *y, *m, *d, *h)),
         Call::Rgb(r, g, b, a) => Norm::Rgb(*r, *g, *b, *a),
         Call::Binary(t) => match t {
             BinT::Array(_) => Norm::As,
@@ -780,6 +780,30 @@ fn oracle_wcalls(ic: u8, fac: u8, calls: &[Call], r: &RunResult, case: &str, obs
                     }
                 } else { obs.count("readback:f32-immoderate"); }
             }
+            (TextToken::Unquoted(s), Src::Date(f, y, m, d, h)) => {
+                // what write_date writes must read back with the crate's own date parsers to the same
+                // components (game formats; ISO-8601 is write-only: no parser accepts it)
+                use jomini::common::{Date, DateHour, PdsDate};
+                if *f == 'i' { obs.count("readback:date-iso(write-only)"); }
+                else if Date::from_ymd_opt(*y, *m, *d).is_none() { obs.count("readback:date-not-in-calendar"); }
+                else if *h == 0 {
+                    obs.count("readback:date");
+                    match Date::parse(s.as_bytes()) {
+                        Ok(x) if (x.year(), x.month(), x.day()) == (*y, *m, *d) => {}
+                        other => obs.violation("date-readback", case, &format!("{}.{}.{} written {} -> {:?}", y, m, d, String::from_utf8_lossy(s.as_bytes()), other)),
+                    }
+                    match RawDate::parse(s.as_bytes()) {
+                        Ok(x) if (x.year(), x.month(), x.day(), x.hour()) == (*y, *m, *d, 0) => {}
+                        other => obs.violation("date-readback", case, &format!("RawDate {}.{}.{} written {} -> {:?}", y, m, d, String::from_utf8_lossy(s.as_bytes()), other)),
+                    }
+                } else {
+                    obs.count("readback:datehour");
+                    match DateHour::parse(s.as_bytes()) {
+                        Ok(x) if (x.year(), x.month(), x.day(), x.hour()) == (*y, *m, *d, *h) => {}
+                        other => obs.violation("date-readback", case, &format!("{}.{}.{}.{} written {} -> {:?}", y, m, d, h, String::from_utf8_lossy(s.as_bytes()), other)),
+                    }
+                }
+            }
             (TextToken::Quoted(s), Src::Quoted(p)) => {
                 obs.count("readback:quoted");
                 // the decoders delete every backslash and trim trailing ASCII white space (documented):
@@ -973,6 +997,26 @@ pub fn gen_c15(g: &mut Gen) {
         emit(g, b' ', 2, &ints);
     }
     g.count("fixed");
+
+    // 0b. extreme dates in all three formats: year boundaries (sign, number of digits, i16 range), every
+    // month with its first and last day, no hour / first hour / last hour
+    let years: [i16; 12] = [i16::MIN, -32767, -10000, -9999, -1000, -1, 0, 1, 999, 9999, 10000, i16::MAX];
+    let month_len: [u8; 12] = [31, 28, 31, 30, 31, 30, 31, 31, 30, 31, 30, 31];
+    for fmt in ['s', 'w', 'i'] {
+        for &y in &years {
+            for h in [0u8, 1, 24] {
+                let mut calls = vec![];
+                for m in 1..=12u8 {
+                    for d in [1u8, month_len[(m - 1) as usize]] {
+                        calls.push(Call::Unquoted(b"d".to_vec()));
+                        calls.push(Call::Date(fmt, y, m, d, h));
+                    }
+                }
+                emit(g, b' ', 2, &calls);
+            }
+        }
+    }
+    g.count("extreme-dates");
 
     // 1. every quoted payload over {\ " \n a space} up to length 4 (5: thorough), in value / key / array position
     let alpha = b"\\\"\na ";
